@@ -32,7 +32,7 @@ func genCase(t *rapid.T) Case {
 	c := Case{SizeMs: p[0], SlideMs: p[1]}
 	c.OOOMs = rapid.SampledFrom([]int64{0, 0, 300, 1000, c.SlideMs, 2 * c.SizeMs}).Draw(t, "ooo")
 	c.Groups = rapid.IntRange(0, 3).Draw(t, "groups")
-	c.TsKind = rapid.SampledFrom([]string{"int", "int64", "float64"}).Draw(t, "tskind")
+	c.TsKind = rapid.SampledFrom([]string{"int", "int64", "float64", "time", "string"}).Draw(t, "tskind")
 	scale := c.SlideMs
 	if rapid.Bool().Draw(t, "scaleBySize") {
 		scale = c.SizeMs
